@@ -114,7 +114,7 @@ def run_hunted(pid, jobs=16):
         path = os.path.join(VERIF, "hunted", e["script"])
         try:
             r = subprocess.run(["/venv/bin/python", path], env=env, capture_output=True, text=True, timeout=600, cwd=os.path.join(VERIF, "work"))
-            return e, r.returncode, [l for l in r.stdout.splitlines() if l.startswith("VIOLATION")][:2], r.stderr[-300:]
+            return e, r.returncode, [l for l in r.stdout.splitlines() if l.startswith("VIOLATION") or l.startswith("PROBLEM")][:2], r.stderr[-300:]
         except subprocess.TimeoutExpired:
             return e, 0, [], "timeout"
     os.makedirs(os.path.join(VERIF, "work"), exist_ok=True)
